@@ -3,6 +3,7 @@ package sim
 import (
 	"bufio"
 	"bytes"
+	"context"
 	"encoding/json"
 	"fmt"
 	"os"
@@ -13,6 +14,7 @@ import (
 	"strconv"
 	"strings"
 	"sync"
+	"syscall"
 	"time"
 
 	"verif/sim/ref"
@@ -42,6 +44,7 @@ type driver struct {
 	spsaWorkers   int
 	forceGMP1     bool
 	noBlockWriter bool
+	legTrouble    bool // a free-running leg's process had to be killed and the engine was not to blame
 	noLag         bool // C14: no case with a GUI that is behind with reading (see determinism)
 	gridSeen      map[int]bool
 	gridTotal     int
@@ -314,6 +317,49 @@ type raceOut struct {
 	report string // first DATA RACE report, if any
 	panicS string
 	last   string // last RACE-SESSION line before the process ended
+	hung   string // non-empty: the process was still running long after its budget; what it was doing
+	hungE  bool   // ... and a goroutine was running inside the engine
+}
+
+// freeRunningBlame looks, in the goroutine dump of a free-running leg's
+// process, for a goroutine that is running (or runnable) with an engine frame
+// innermost.
+func freeRunningBlame(stacks string) (bool, string) {
+	for _, g := range strings.Split(stacks, "\n\n") {
+		head, body, _ := strings.Cut(g, "\n")
+		if !(strings.Contains(head, "[running") || strings.Contains(head, "[runnable")) {
+			continue
+		}
+		for _, l := range strings.Split(body, "\n") {
+			if strings.HasPrefix(l, "\t") || strings.HasPrefix(l, "runtime.") || strings.HasPrefix(l, "created by") || strings.TrimSpace(l) == "" {
+				continue
+			}
+			if strings.HasPrefix(l, "github.com/paulsonkoly/chess-3/") {
+				return true, strings.TrimSpace(l)
+			}
+			if strings.HasPrefix(l, "verif/sim") || strings.HasPrefix(l, "testing.") {
+				break // the harness's own code is running, not the engine
+			}
+			// (a standard library frame called from further down: keep looking)
+		}
+	}
+	return false, ""
+}
+
+// hungLeg turns a free-running process that was still busy long after its
+// budget into a finding (a goroutine running inside the engine: the search
+// does not return) or into harness trouble (anything else).
+func (d *driver) hungLeg(prop, leg, name string, master uint64, ro *raceOut, found *[]finding) {
+	var idx uint64
+	fmt.Sscanf(ro.last, "RACE-SESSION seed=%d index=%d", new(uint64), &idx)
+	if !ro.hungE {
+		fmt.Fprintf(os.Stderr, "HARNESS: a process of the %s made no progress for 90 s or was still running 150 s after its budget (%s); %s\n", name, ro.hung, ro.last)
+		d.legTrouble = true
+		return
+	}
+	v := Violation{Property: prop, Kind: "livelock", Detail: fmt.Sprintf("[%s] no game finished for 90 s: a search does not return; it is running inside %s (%s)", name, ro.hung, ro.last)}
+	rc := &RunCase{Property: prop, Leg: leg, Seed: master, Run: idx}
+	*found = append(*found, finding{run: &RunResult{Leg: leg, Run: idx, Seed: master, Case: rc, Violations: []Violation{v}}, v: v, from: "race"})
 }
 
 func (d *driver) spawnRace(job RaceJob, gomaxprocs int) *raceOut {
@@ -333,13 +379,47 @@ func (d *driver) spawnRaceTest(test, envName string, job RaceJob, gomaxprocs int
 	d.mu.Unlock()
 	outPath := filepath.Join(d.tmp, fmt.Sprintf("race%d.json", id))
 	js, _ := json.Marshal(job)
-	cmd := exec.Command(bin, "-test.run=^"+test+"$", "-test.count=1", "-test.timeout=0")
+	// these legs run on real threads without a scheduler of ours: a search that
+	// never returns would keep the process (and the check) alive for ever
+	limit := time.Duration(job.BudgetS*float64(time.Second)) + 150*time.Second
+	if job.BudgetS == 0 {
+		limit = 300 * time.Second
+	}
+	ctx, cancel := context.WithTimeout(context.Background(), limit)
+	defer cancel()
+	cmd := exec.CommandContext(ctx, bin, "-test.run=^"+test+"$", "-test.count=1", "-test.timeout=0")
+	cmd.Cancel = func() error { return cmd.Process.Signal(syscall.SIGQUIT) } // goroutine dump, then exit
+	cmd.WaitDelay = 20 * time.Second
 	cmd.Env = append(os.Environ(), "VERIF_MODE=worker", envName+"="+string(js), "VERIF_OUT="+outPath, "GORACE=halt_on_error=1 exitcode=66", fmt.Sprintf("GOMAXPROCS=%d", gomaxprocs))
 	var stderr bytes.Buffer
 	cmd.Stderr = &stderr
 	cmd.Stdout = &stderr
 	ro.err = cmd.Run()
 	ro.stderr = stderr.String()
+	if i := strings.Index(ro.stderr, "PARALLEL-LEG-STUCK"); i >= 0 {
+		ro.hungE, ro.hung = freeRunningBlame(ro.stderr[i:])
+		if ro.hung == "" {
+			ro.hung = "no goroutine running inside the engine"
+		}
+		for _, l := range strings.Split(ro.stderr[:i], "\n") {
+			if strings.HasPrefix(l, "RACE-SESSION") {
+				ro.last = l
+			}
+		}
+		return ro
+	}
+	if ctx.Err() == context.DeadlineExceeded {
+		ro.hungE, ro.hung = freeRunningBlame(ro.stderr)
+		if ro.hung == "" {
+			ro.hung = "no goroutine running inside the engine"
+		}
+		for _, l := range strings.Split(ro.stderr, "\n") {
+			if strings.HasPrefix(l, "RACE-SESSION") {
+				ro.last = l
+			}
+		}
+		return ro
+	}
 	if b, err := os.ReadFile(outPath); err == nil {
 		s := &RaceSummary{}
 		if json.Unmarshal(bytes.TrimSpace(b), s) == nil {
@@ -683,6 +763,8 @@ func (d *driver) check(prop, tier string) int {
 				}
 				rc := &RunCase{Property: prop, Leg: "race", Seed: master, Run: idx}
 				found = append(found, finding{run: &RunResult{Leg: "race", Run: idx, Seed: master, Case: rc, Violations: []Violation{v}}, v: v, from: "race"})
+			} else if ro.hung != "" {
+				d.hungLeg(prop, "race", "free-running leg", master, ro, &found)
 			} else if ro.sum == nil {
 				fmt.Fprintf(os.Stderr, "note: a race-leg process ended without a summary (%v): %s\n", ro.err, tail(ro.stderr, 600))
 			}
@@ -729,6 +811,8 @@ func (d *driver) check(prop, tier string) int {
 				}
 				rc := &RunCase{Property: prop, Leg: "parallel", Seed: master, Run: idx}
 				found = append(found, finding{run: &RunResult{Leg: "parallel", Run: idx, Seed: master, Case: rc, Violations: []Violation{v}}, v: v, from: "race"})
+			} else if ro.hung != "" {
+				d.hungLeg(prop, "parallel", "parallel leg", master, ro, &found)
 			} else if ro.sum == nil {
 				fmt.Fprintf(os.Stderr, "note: a parallel-leg process ended without a summary (%v): %s\n", ro.err, tail(ro.stderr, 600))
 			}
@@ -823,6 +907,9 @@ func (d *driver) check(prop, tier string) int {
 	}
 	fmt.Printf("%s %s: runs=%d searches=%d distinct_nontrivial=%d simulated=%.1fs wall=%.1fs violations=%d known_findings=%d\n",
 		prop, tier, agg.Runs, agg.Stats["searches"], len(sigs), agg.SimS, wall, violations, len(knownPrinted))
+	if d.legTrouble && violations == 0 {
+		return 2
+	}
 	return exit
 }
 
